@@ -383,7 +383,7 @@ def include(state, included_file_path: str):
     include_path = devices.resolve_relative_path(included_file_path, state["filename"])
 
     try:
-        with open(include_path, "r") as f:
+        with open(include_path, "r", encoding="utf-8") as f:
             code = f.read()
     except FileNotFoundError:
         reports.error(
